@@ -16,7 +16,6 @@
 
 double sc_time_stamp() { return 0; }
 
-constexpr size_t RESET_BEGIN = 1;
 constexpr size_t RESET_END = 10;
 
 hex::HexSimIO io(std::cin, std::cout);
@@ -96,9 +95,11 @@ int run(const std::unique_ptr<VerilatedContext> &contextp,
   uint64_t cycle_count = 0;
   int exitCode = 0;
 
-  // Set input signals
-  top->i_rst = 0;
+  // Set input signals, with reset asserted before the first clock edge so that
+  // nothing is executed from the power-on state of the registers.
+  top->i_rst = 1;
   top->i_clk = 0;
+  top->eval();
 
   while (!contextp->gotFinish() &&
          (maxCycles > 0 ? cycle_count <= maxCycles : true)) {
@@ -107,7 +108,7 @@ int run(const std::unique_ptr<VerilatedContext> &contextp,
     top->i_clk = !top->i_clk;
     // Assert reset initially.
     if (top->i_clk) {
-      if (contextp->time() > RESET_BEGIN && contextp->time() < RESET_END) {
+      if (contextp->time() < RESET_END) {
         top->i_rst = 1; // Assert reset
       } else {
         top->i_rst = 0; // Deassert reset
@@ -128,7 +129,7 @@ int run(const std::unique_ptr<VerilatedContext> &contextp,
                      % instr;
     }
     // Handle syscalls
-    if (top->i_clk && top->o_syscall_valid) {
+    if (top->i_clk && !top->i_rst && top->o_syscall_valid) {
       auto syscall = static_cast<hex::Syscall>(top->o_syscall);
       handleSyscall(syscall, top, exitCode, trace);
       if (syscall == hex::Syscall::EXIT) {
